@@ -43,8 +43,8 @@ CHECKS["C09"] = dict(
     text="Theorems in coq/Properties/C09.v: what the fair queue yields from connection k is returned prefixed with k's registered identity and otherwise unmodified; a send is written, minus its first frame, to exactly the addressed registered peer with every other wire and the peer table unchanged; unknown, empty or over-long identities fail and write nothing. Real ROUTER with 1-4 peers, announced/auto identities, segmented arrivals, departed peers. Over whole histories (any number of peers, any interleaving of arrivals in any chunking, closes, recv calls): every returned message carries the label of an attached connection, the messages labelled k are a prefix of k's stream in order, and complete whenever a recv parks.",
     note=SOCK_NOTE, design="4 C09")
 CHECKS["C10"] = dict(
-    technique="Coq proof (rotation lemma by induction over sends, frame conditions) + exhaustive join-time grids and seeded back-pressure scenarios on real PUSH/DEALER/REQ with wire snapshots at send return",
-    text="Theorems in coq/Properties/C10.v: a successful round-robin send writes the whole message to the head of the rotation only and moves it to the tail; with a duplicate-free rotation of live peers n consecutive sends reach the n members in order (strict rotation) and restore the queue; a late joiner enters at the tail; no live peer => ReturnToSender with the message and nothing written. Real sockets: every join order/time for <=3 peers x 6 sends, writers accepting k bytes per call or answering Pending first. Known finding rr-duplicate-id-after-rejoin is reported as such. Closed form: with n peers message number i goes whole to peer i mod n in joining order.",
+    technique="Coq proof (rotation lemma by induction over sends, frame conditions; history invariants of the send loop over connections that answer every write from a script, including write errors and abandoned sends; structure flags re-read from src/backend.rs) + exhaustive join-time grids, seeded back-pressure scenarios and scripted-connection histories on real PUSH/DEALER/REQ with wire snapshots at send return, compared with the extracted models and judged by an independent rotation oracle",
+    text="Theorems in coq/Properties/C10.v: a successful round-robin send writes the whole message to the head of the rotation only and moves it to the tail; with a duplicate-free rotation of live peers n consecutive sends reach the n members in order (strict rotation) and restore the queue; a late joiner enters at the tail; no live peer => ReturnToSender with the message and nothing written. Real sockets: every join order/time for <=3 peers x 6 sends, writers accepting k bytes per call or answering Pending first. Known finding rr-duplicate-id-after-rejoin is reported as such. Closed form: with n peers message number i goes whole to peer i mod n in joining order. Model/RrSend.v is send_round_robin over one framed writer per peer answering each write from its own script (partial writes, transient and standing back-pressure with the caller giving up, errors, Ok(0)): a send touches at most one connection; success means the whole message is on that wire; a failed write forgets the peer and at most a prefix went out; an abandoned send keeps the peer and its turn (C10_faulty_stall_keeps_turn with C10_gen_structure re-reading the guard sites of the repaired code, /repo 69ecfb3); for every history the wire of a connection is a prefix of exactly the messages given to it, complete when none failed or stalled. 300 (thorough 5000) such histories run on real PUSH/DEALER sockets and on the extracted model.",
     note=SOCK_NOTE, design="4 C10")
 
 FQ_NOTE = "Trusted: kernel, translator, extraction, driver, harness. Granularity: a parking_lot::Mutex critical section is one atomic step; poll_next's two critical sections and the stream poll between them are separate steps, any environment step may be scheduled in between (coq/Model/FairQueue.v). The model is replayed label by label on the real FairQueue through scripted streams whose poll_next executes the in-window events, so no threads are needed. BinaryHeap/HashMap are modelled as sorted list / key set; AtomicUsize wrap-around ignored; the executor re-polling a woken task is tokio's."
@@ -61,8 +61,8 @@ CHECKS["C11"] = dict(
     text="Theorems in coq/Properties/C11.v: for every per-subscriber history the kept list has the reference multiset's multiplicities (subscribe +1, unsubscribe -1 saturating), a message is matched iff some active subscription is a byte-prefix of its first frame, malformed messages change nothing, one publish writes to a matching subscriber exactly once and to nobody else. All histories of length <=3/4 over 12 symbols x 6 first frames on real PUB and XPUB, plus 2-3 subscriber random histories; XPUB recv verbatim/in order. Over the wire: the subscription messages a SUB socket writes for any subscribe/unsubscribe history, in any chunking, make PUB (and XPUB, whose recv also hands them over in order) deliver a message iff a CURRENT subscription is a prefix of its first frame.",
     note=SOCK_NOTE + " PUB applies subscriptions in a spawned task: compared at quiescence only.", design="4 C11")
 CHECKS["C12"] = dict(
-    technique="Coq proof (invariants of try_send over every transport answer sequence: stream well-formedness, buffer bound, accepting case) + the real try_send replaying the same answer scripts + real PUB/XPUB with a stalled/slow/broken subscriber",
-    text="Theorems in coq/Properties/C12.v: for every answer sequence of the transport, written++buffered is extended by exactly the encoded message when try_send accepts it and is unchanged otherwise (only whole messages are dropped; what reached the peer is a prefix of a well-formed stream of an order-preserving subsequence), the buffer stays below high-water mark + one message, an accepting connection misses nothing. The high-water mark is regenerated from the Cargo.lock-pinned asynchronous-codec. Real TrySend on scripted writers; real publishers: send always returns, healthy subscribers miss nothing.",
+    technique="Coq proof (invariants of try_send over every transport answer sequence: stream well-formedness, buffer bound, accepting case; refinement-style theorems about the PUB/XPUB send loop over one such sink per subscriber: isolation of each subscriber from the others, order-preserving subsequence, bound, removal after a broken pipe, agreement with the socket model over accepting connections) + the real try_send replaying the same answer scripts + real PUB/XPUB with scripted subscriber connections compared with the extracted fan-out model and judged by an independent oracle",
+    text="Theorems in coq/Properties/C12.v: for every answer sequence of the transport, written++buffered is extended by exactly the encoded message when try_send accepts it and is unchanged otherwise (only whole messages are dropped; what reached the peer is a prefix of a well-formed stream of an order-preserving subsequence), the buffer stays below high-water mark + one message, an accepting connection misses nothing. Model/PubFan.v is the send loop of PUB/XPUB over one sink per subscriber with subscriptions and transport answers changing at any point: publish is a total function (no waiting outcome); in the run of the whole table each subscriber goes through exactly its own solo run, so delivery to it does not depend on the other subscribers or their connections; its stream is a concatenation of whole messages forming an order-preserving subsequence of those offered to it; the bound and the accepting case lift to the table; over accepting connections the fan-out equals the publish of the World socket model. The high-water mark is regenerated from the Cargo.lock-pinned asynchronous-codec. Real TrySend on scripted writers; real publishers: send always returns, healthy subscribers miss nothing; real PUB and XPUB with 2-3 scripted subscriber connections agree with the extracted PubFan model tap for tap (length and hash of every wire tap, release of the write half).",
     note="Trusted: kernel, translator, extraction, driver, harness. FramedWrite2 (third-party, pinned) is modelled by hand from its source; BytesMut capacity vs length is not modelled (measured separately under C03's allocator bounds).", design="4 C12")
 CHECKS["C14"] = dict(
     technique="Coq proof (fair queue holds nothing across calls; items accounted for over all schedules; REQ pending-recv lemma) + exhaustive (cut position x polls-before-drop) cancellation grid on all seven receiving socket types",
